@@ -17,8 +17,14 @@ for id in "${ids[@]}"; do
   if ! git -C $WT apply $V/seeded/$id/patch.diff; then echo "$id: PATCH-DOES-NOT-APPLY"; rc=2; continue; fi
   for c in $(python3 -c "import json;print(' '.join(json.load(open('$V/seeded/$id/meta.json'))['caught_by']))"); do
     out=$(VERIF_REPO=$WT VERIF_EVIDENCE_DIR=/tmp/reeval-evidence ./vcheck $c 2>&1)
+    again=""
+    if ! echo "$out" | grep -q "^VIOLATION property=$c " && echo "$out" | grep -q "HARNESS-TROUBLE.*did not \(recur\|reproduce\)"; then
+      # some seeded changes make refinery itself nondeterministic (a data race, memory shared between
+      # goroutines): a violation seen once need not show again on the same plan. One more attempt.
+      out=$(VERIF_REPO=$WT VERIF_EVIDENCE_DIR=/tmp/reeval-evidence ./vcheck $c 2>&1); again=" (second attempt; the first found a violation that did not recur on its plan)"
+    fi
     if echo "$out" | grep -q "^VIOLATION property=$c "; then
-      echo "$id $c CAUGHT $(echo "$out" | grep -m1 '^violation:' | cut -c1-140)"
+      echo "$id $c CAUGHT$again $(echo "$out" | grep -m1 '^violation:' | cut -c1-140)"
     else
       echo "$id $c MISSED $(echo "$out" | grep -m1 'HARNESS-TROUBLE' | cut -c1-160)"; rc=1
     fi
